@@ -503,6 +503,53 @@ def c07_text(ctx):
                       f'parsed text is {unparse(e)[:120]}: rewritten by {", ".join(sorted({x.func.attr for x in bad}))}() before the parser sees it')
     if n < 8:
         ctx.err('text:inventory', '-', 'at least 8 calls of parse_expression', f'{n}')
+    # a text composed around what was written (the `0 - <offset>` of a negative register offset): what is put in front of the
+    # written text is digits, blanks and + / - only, nothing follows it and it is not wrapped in parentheses - the written text stays
+    # the tail of one additive chain, so its own operators keep their left-to-right reading
+    base = ctx.repo.find_class('ExpressionByteCodePart')
+    family = {base.name} | {c_.name for c_ in base.all_subclasses()}
+    composed = 0
+    for q, fi in sorted(ctx.repo.functions.items()):
+        sinks = []
+        for c in ast.walk(fi.node):
+            if isinstance(c, ast.Call) and unparse(c.func).split('.')[-1] in family and (c.args or c.keywords):
+                a = c.args[0] if c.args else next((k.value for k in c.keywords if k.arg == 'value_expression'), None)
+                if a is not None:
+                    sinks.append((c, a))
+            elif isinstance(c, ast.Call) and unparse(c.func).split('.')[-1] == 'parse_expression' and len(c.args) >= 2:
+                sinks.append((c, c.args[1]))
+        for c, a in sinks:
+            cands = [a]
+            if isinstance(a, ast.Name):
+                cands = [st_.value for st_ in ast.walk(fi.node) if isinstance(st_, ast.Assign) and any(isinstance(t, ast.Name) and t.id == a.id for t in st_.targets)]
+                cands += [st_.value for st_ in ast.walk(fi.node) if isinstance(st_, ast.AnnAssign) and st_.value is not None and isinstance(st_.target, ast.Name) and st_.target.id == a.id]
+            for e in cands:
+                parts = None
+                if isinstance(e, ast.JoinedStr):
+                    parts = list(e.values)
+                elif isinstance(e, ast.BinOp) and isinstance(e.op, ast.Add):
+                    parts, todo = [], [e]
+                    while todo:
+                        x = todo.pop()
+                        if isinstance(x, ast.BinOp) and isinstance(x.op, ast.Add):
+                            todo.append(x.right)
+                            todo.append(x.left)
+                        else:
+                            parts.append(x)
+                    if not any(isinstance(x, ast.Constant) and isinstance(x.value, str) for x in parts):
+                        parts = None
+                elif isinstance(e, ast.BinOp) and isinstance(e.op, ast.Mod) and isinstance(e.left, ast.Constant) and isinstance(e.left.value, str):
+                    parts = [e.left]            # %-formatting: the template must itself end with the written text: not analysed, refuse
+                if parts is None:
+                    continue
+                composed += 1
+                consts = [x.value for x in parts if isinstance(x, ast.Constant) and isinstance(x.value, str)]
+                ok = bool(parts) and not (isinstance(parts[-1], ast.Constant)) and all(re.fullmatch(r'[0-9 +\-]*', t) for t in consts)
+                ctx.check(ok, f'text:composed:{ctx.short(fi)}:{unparse(a)[:30]}', fi.site(e),
+                          'a text composed for the parser only puts digits, blanks, + or - in front of the written text: no parentheses around it, nothing after it',
+                          f'composed as {unparse(e)[:120]}')
+    if composed < 1:
+        ctx.err('text:composed-inventory', '-', 'the composed `0 - offset` text of the register-indirect operand', f'{composed}')
 
 
 def c07_5(ctx):
@@ -599,6 +646,34 @@ def c07_5(ctx):
         v = ch.value if isinstance(ch, ast.Return) else None
         ok = isinstance(v, ast.Call) and unparse(v.func) == 'ord'
     ctx.check(ok, 'literal:char', site, "a quoted character denotes its ordinal", unparse(ch) if ch is not None else 'no branch')
+    # the recogniser the lexer and the label rules ask: a text is numeric iff the pattern matches it - the only other way out is
+    # the blank / empty text the pattern cannot be asked about
+    isn = ctx.repo.func(util + '.is_string_numeric')
+    a_n = isn.call_params[0].arg
+    blank_tests = {f'{a_n}.isspace()', f'not {a_n}', f'not {a_n}.strip()', f'len({a_n}) == 0', f"{a_n} == ''", f'{a_n} is None',
+                   f"{a_n}.strip() == ''", f'len({a_n}.strip()) == 0'}
+    pm = parent_map(isn.node)
+    rets_n = sorted(returns(isn), key=lambda r_: (r_.lineno, r_.col_offset))
+    extra = []
+    for r in rets_n:
+        if r is rets_n[-1] and pm.get(id(r)) is isn.node:
+            continue
+        par = pm.get(id(r))
+        tests = []
+        if isinstance(par, ast.If) and r in par.body and len(par.body) == 1:
+            tests = par.test.values if isinstance(par.test, ast.BoolOp) and isinstance(par.test.op, ast.Or) else [par.test]
+        falsy = isinstance(r.value, ast.Constant) and r.value.value is False
+        if not (falsy and tests and all(unparse(t) in blank_tests for t in tests) and pm.get(id(par)) is isn.node):
+            extra.append(r)
+    last = rets_n[-1] if rets_n else None
+    lv = deref(ctx, isn, last.value, last) if last is not None and last.value is not None else None
+    asks_pattern = False
+    if last is not None:
+        texts = [unparse(n) for st_ in isn.node.body for n in ast.walk(st_) if isinstance(n, ast.Call)]
+        asks_pattern = any(('PATTERN_NUMERIC' in t and ('match(' in t)) for t in texts)
+    ctx.check(not extra and asks_pattern, 'literal:recogniser-is-the-pattern', isn.site(extra[0]) if extra else isn.site(),
+              'is_string_numeric answers from PATTERN_NUMERIC alone (a blank text aside): every notation the pattern has is a number for the lexer',
+              '; '.join(f'early answer: {unparse(pm.get(id(r)))[:110]}' for r in extra) or 'no match against PATTERN_NUMERIC')
     # lexer classification order: numeric before label; BYTE function token before both
     lex = ctx.repo.func(EX + '._lexical_analysis')
     chain = []
